@@ -310,7 +310,7 @@ fn verif_c18_enumeration() {
     let full: Vec<usize> = (0..n + 2).collect();
     for before in befores {
         for after in afters {
-            for vis in ["", "pub", "pub(crate)", "pub(super)"] {
+            for vis in ["", "pub", "pub(crate)", "pub(super)", "pub(self)", "pub(in crate::outer)", "pub(in super)"] {
                 for dir in ["", "sub/", "sub/../", "sub/deeper/../../", "../c18fix/", "../../rs/c18fix/", "./", "sub/./", "skip_serializing_none/"] {
                     run_case(&mut ctx, "surroundings", &opt_default, &full, ", ", true, before, after, vis, dir);
                     run_case(&mut ctx, "surroundings", &[], &[1, 0], ",", false, before, after, vis, dir);
